@@ -312,6 +312,16 @@ def _block(lines: List[str], i: int) -> Tuple[List[Any], int]:
     return items, i + 1
 
 
+def _flat(items: List[Any]) -> List[str]:
+    out: List[str] = []
+    for it in items:
+        if isinstance(it, str):
+            out.append(it)
+        else:
+            out.extend(_flat(it[-1]))
+    return out
+
+
 def parse_body(text: str, marker: str) -> Dict[str, Any]:
     """The body of the innermost-level loop over the event collection, as the observation `PipeSpec` reads:
     declarations without initialiser, plain blocks (template lines + final assignment), column right-hand
@@ -347,7 +357,7 @@ def parse_body(text: str, marker: str) -> Dict[str, Any]:
             blocks.append({"lines": sub[:-1], "lhs": a.group(1), "rhs": a.group(2)})
         elif it[0] == "for":
             seen_stmt = True
-            loops.append({"var": it[1], "coll": it[2]})
+            loops.append({"var": it[1], "coll": it[2], "body": _flat(it[3])})
         else:
             seen_stmt = True
     return {"loop_var": loop_var, "decls": decls, "blocks": blocks, "cols": cols, "loops": loops,
